@@ -504,6 +504,8 @@ pub fn run(args: &Args) -> Report {
     let results: Mutex<Vec<(usize, Outcome)>> = Mutex::new(vec![]);
     let next = AtomicU64::new(0);
     let bad = AtomicU64::new(0);
+    let not_started = AtomicU64::new(0);
+    let wall0 = Instant::now();
     std::thread::scope(|sc| {
         for _ in 0..workers {
             sc.spawn(|| {
@@ -511,6 +513,12 @@ pub fn run(args: &Args) -> Report {
                     let i = next.fetch_add(1, Ordering::SeqCst) as usize;
                     // a broken tree costs seconds per witness: a handful of witnesses is enough
                     if i >= scenarios.len() || bad.load(Ordering::SeqCst) >= 6 {
+                        break;
+                    }
+                    // the scenarios are independent draws: on a slow or shared machine the thorough tier stops drawing new ones after
+                    // 35 minutes (what ran is reported as such) instead of running into the driver's wall-clock watchdog
+                    if !miri && wall0.elapsed() > Duration::from_secs(2100) {
+                        not_started.fetch_add(1, Ordering::SeqCst);
                         break;
                     }
                     let o = run_scenario(&scenarios[i], miri, hb.as_ref());
@@ -627,6 +635,8 @@ pub fn run(args: &Args) -> Report {
     }
     rep.set("schedule_classes", json!(classes));
     rep.set("waiter_park_events", json!(parks_total));
+    rep.set("scenarios_drawn", json!(scenarios.len()));
+    rep.set("worker_threads_stopped_by_the_35_minute_cap", json!(not_started.load(Ordering::SeqCst)));
     if let Some(h) = &hb {
         rep.set("heartbeat_max_gap_ms", json!(h.max_gap_ms()));
     }
